@@ -171,3 +171,13 @@ claim("C12",
       "relations between modes, OS-level stream failures and clap's grammar are not decided.",
       "Trusted: rustc MIR; std::fs::write / Stdout::write_all report failures through their io::Result.",
       "DESIGN.md §2 C12")
+claim("C13",
+      "origin analysis of the candidate iterator, cache keys and delivered payloads; edge dominance; forced-failure walks of the import callbacks and evaluator arms",
+      "Decides C13 structurally: (R1) relative imports try the importing file's directory then the library directories in stored order (the chain "
+      "order of the candidate iterator), first existing join(dir, path) wins, absolute paths only test themselves, and the CLI registers -J "
+      "right-most first; (R2) the source cache is looked up and filled with the canonicalized path, filled only on the successful-load edge, and a "
+      "hit neither reads nor loads again; (R3) importbin's payload derives from fs::read only, importstr's through from_utf8_lossy only, bytes "
+      "become numbers by u8->f64, std.thisFile is the display form of the path as given; (R4) each failing step of the three callbacks returns "
+      "ImportError and each evaluator import arm turns it into ImportFailed with the expression's span.",
+      "Trusted: rustc MIR; std::path / std::fs semantics (canonicalize, exists, symlinks). Import cycles are not decided.",
+      "DESIGN.md §2 C13")
